@@ -60,24 +60,40 @@ SPEC = {
                 '(above, Go int(thresh) turns negative and the aggregator threshold vanishes: modelled by agg_thr, hypotheses say f < 2^62)'],
     'assumptions': ['libocr delivers at most one observation per oracle per round and calls ValidateObservation before Outcome',
                     'the configuration of a processor / plugin instance does not change during its life (a configuration change makes libocr build a new plugin instance)',
-                    'the repairs fixes/F08.patch and fixes/F09.patch are applied (the check reports VIOLATION on a tree without them)'],
-    'level_text': 'Proof: Coq theorems over the executable model: the median of any list of >= 2f+1 values with <= f faulty ones lies between the honest '
-                  'minimum and maximum (also component-wise for fee updates and timestamps); every aggregated key met its 2f+1 threshold (refuted for the '
-                  'pre-repair aggregator); Deviates as an integer inequality incl. zero cases and symmetry; USD-per-unit-gas floor bounds; packing round trip with the '
-                  '112-bit shift; a token / gas price is selected iff no stored value, heartbeat elapsed or deviation, output strictly sorted by key; validated '
-                  'observations contain no null big integer. Correspondence: Deviates, CalculateUsdPerUnitGas, To/FromPackedFee, Median and both processors '
-                  '(ValidateObservation + Outcome) run against the model and a direct restatement of the property every run. '
-                  'Histories (C14_history_*): for every configuration, every initial previous outcome and every list of rounds run through one long-lived processor with the returned Outcome value of '
-                  'round k handed to round k+1, round k equals the processor run on round k\'s role map and observations alone (induction over the round list; the previous outcome does not occur), hence every '
-                  'gas / token price of every round of every history satisfies the derivation, median-robustness and selection theorems over THAT round\'s accepted observations, and a round without consensus '
-                  '(error exit, nothing-to-update exit) hands back no price; the variant that hands the previous outcome back on those exits is refuted by a three-round witness. The history parts judge every '
-                  'round of the long-lived instances against that memoryless step function',
-    'level_note': 'Trusted: Coq kernel, hand-written model, differential harness. No axioms. Plugin level: commit.Plugin (NewPlugin, N in {4,7}, F in {1,2}, f(source) != f(dest)) '
-                  'ValidateObservation + Outcome + Reports: the report PriceUpdates must equal the outcome prices (order, nothing lost or added). '
-                  'History parts: instances built by the real constructors, kept alive across rounds; configuration (frequencies, thresholds, F, destination, feed chain) is fixed per instance as in production, '
-                  'so a memo of configuration values raises no alarm while a memo of anything read per round (role map, agreed f, stored updates, clock, previous outcome) does.',
-    'modelled': 'mathslib.Deviates / CalculateUsdPerUnitGas, chainfee To/FromPackedFee / ChainFeeUpdateAggregator / ValidateObservation / '
-                'getConsensusObservation / Outcome / getGasPricesToUpdate, tokenprice ValidateObservation / getConsensusObservation / '
-                'selectTokensForUpdate / Outcome, consensus.Median / GetConsensusMapAggregator / TimestampedBigAggregator; '
-                'over histories: chainfee.NewProcessor / tokenprice.NewProcessor instances and the price part of commit.Plugin.Outcome / Reports with OutcomeContext.PreviousOutcome threaded',
+                    'the model follows the repaired code (F08, F09 are committed in /repo; the pre-repair functions are kept as _unfixed and refuted)'],
+    'level_text': 'Proof: 70 closed Coq theorems. 32 property theorems over the executable model: the median of any list of >= 2f+1 values with <= f faulty ones lies '
+                  'between the honest minimum and maximum, also component-wise for fee updates and timestamps (C14_median_robust, _fee_update, _pair); every aggregated '
+                  'key met its 2f+1 threshold (C14_threshold: iff, C14_threshold_value); a gas / token price is the median-derived value of the accepted observations '
+                  '(C14_gas_price, C14_token_price, _robust); Deviates as an integer inequality incl. zero cases and symmetry (C14_deviates_spec / _sym / _zero); '
+                  'USD-per-unit-gas floor bounds and the 112-bit packing round trip (C14_units_usd, C14_units_packing); a price is selected iff no stored value, '
+                  'heartbeat elapsed or deviation, output strictly sorted by key (C14_selection_gas, _token, C14_order_meaning); validated observations contain no null '
+                  'big integer (C14_validated_no_null_*). Histories, for every configuration, initial previous outcome and round list on one long-lived processor: round '
+                  "k equals the processor run on round k's role map and observations ALONE (C14_history_round_gas / _token, C14_history_prev_irrelevant), so every price "
+                  "of every round satisfies the derivation, robustness and selection theorems over THAT round's accepted observations (C14_history_gas_current, "
+                  '_token_current, _token_robust, _plugin_prices); a round without consensus hands back no price; C14_history_stale_variant_refuted. Unrepaired code '
+                  "refuted: F08 (aggregator without agreed f took a single oracle's value), gas threshold, F09 (null big integers passed validation). Judge soundness (38 "
+                  "C14_judge_*): for each of the 10 sinks the executable property accepts the model's output and implies the Prop-level clause; the order clause is "
+                  'premise-free for every price list. Correspondence, every run: real Deviates, CalculateUsdPerUnitGas, To / FromPackedFee, Median, both processors '
+                  '(ValidateObservation + Outcome) and commit.Plugin (report PriceUpdates = outcome prices); ONE chainfee / tokenprice Processor from NewProcessor and '
+                  'ONE commit.Plugin from NewPlugin kept over 3..10 rounds with the previous outcome threaded and destination store, role map, f values, clock (+-1 ns at '
+                  'the frequency, backwards) and observer counts changing. Translation tie (14 theorems, C14_gen.v): Deviates, CalculateUsdPerUnitGas, ToPackedFee, '
+                  'FromPackedFee, the generic Median and TwoFPlus1 are re-translated from source and the property statements restated over them. Partial: negative '
+                  'Deviates operands and operands outside the packing range are compared with the model only.',
+    'level_note': 'Trusted: Coq kernel, hand-written model and theorem statements, differential harness, leaf translator. Specific: home-chain role lookups are a '
+                  'scripted fake; big.Int arithmetic (Mul, Div = Euclidean, Lsh, Rsh, Or, And, Cmp) behaves as documented (Z in the model; the translator does not model '
+                  'division by zero or nil operands); time.Time as Unix nanoseconds within 1678..2262, no monotonic readings; token ids are fixed-width hex so that Go '
+                  "string order is the model's numeric order; deviation thresholds are non-nil and fit int64; agreed f < 2^62 (above, int(thresh) turns negative: "
+                  'hypothesis of the theorems); BigIntSortedMiddle is refused by the translator (comparator on an embedded *big.Int). libocr modelled: one observation '
+                  'per oracle, validation before Outcome; the configuration of an instance is fixed for its life, so a memo of configuration values raises no alarm while '
+                  'a memo of anything read per round does. No axioms.',
+    'technique': 'Coq theorems (median robustness, threshold iff, exact selection rule, memorylessness over round histories) over a hand-written Gallina model on Z; '
+                 'differential correspondence with proved judge on leaf functions, processors, commit.Plugin and long-lived instances; Deviates / unit conversions / fee '
+                 'packing / Median re-translated from Go (C14_gen.v)',
+    'modelled': 'mathslib.Deviates / CalculateUsdPerUnitGas, chainfee To/FromPackedFee / ChainFeeUpdateAggregator / ValidateObservation / getConsensusObservation / '
+                'Outcome / getGasPricesToUpdate, tokenprice ValidateObservation / getConsensusObservation / selectTokensForUpdate / Outcome, consensus.Median / '
+                'GetConsensusMapAggregator / TimestampedBigAggregator; over histories: chainfee.NewProcessor / tokenprice.NewProcessor instances and the price part of '
+                'commit.Plugin.Outcome / Reports with OutcomeContext.PreviousOutcome threaded. Translated from source per run: mathslib.Deviates, '
+                'CalculateUsdPerUnitGas, chainfee ToPackedFee / FromPackedFee, consensus.Median (generic), consensus.TwoFPlus1 (C14_gen.v); slicelib.BigIntSortedMiddle '
+                'is refused by the translator. Inputs of the model: role map and f lookups, stored updates of the destination, the clock, the attributed observations '
+                'of each round',
 }
